@@ -2,8 +2,9 @@
    Only statements: each theorem repeats the full statement of a lemma proved in TrimProofs.v and is closed by [exact].
    Vocabulary (coq/Trim.v): [spec_run inp pos] = the maximal run of {space, tab, LF, FF} at pos (start, end, position of
    its first line break); [mode_check m r] = None when run r satisfies mode m, else the mode's error (WsNone: start of the
-   run, WsSpaces: first line break, WsSpacesForceNl: end of the run); [spec_tokens]/[spec_parse] = the property as written;
-   [code_tokens]/[code_parse] = the same except that a right trim relocates the whitespace error of its left trim (K3). *)
+   run, WsSpaces: first line break, WsSpacesForceNl: end of the run); [spec_tokens]/[spec_parse] = the property as written
+   ([code_tokens]/[code_parse] are the same functions since the K3 repair of RightTrim: a whitespace error is no longer
+   moved over the whitespace behind it). *)
 From Coq Require Import String List NArith ZArith Bool.
 From Parsley Require Import Obs Base FileSet Grammar Engine EngineFacts EngineHarness Trim TrimProofs.
 From Parsley Require Reader ReaderProofs.
@@ -132,15 +133,15 @@ Theorem C10_righttrim_table_node :
 Proof. exact righttrim_table_node. Qed.
 Print Assumptions C10_righttrim_table_node.
 
-(* RightTrim around ANY failing operand: the operand's error — whatever its kind — is moved to the end of the whitespace
-   run that starts at the error's position (the cause of finding K3). *)
+(* RightTrim around ANY failing operand: a whitespace error of the operand (e.g. of an inner LeftTrim) is returned as it
+   is; any other error is moved to the end of the whitespace run that starts at the error's position. *)
 Theorem C10_righttrim_table_err :
   forall (inp : input) (rules : list pexpr) (rp : ptype) (rs : stype) (m : wsmode) (p : pexpr) (c : ctx) (stk : stack)
          (lrc : intmap) (pos : N) (res : list node) (cp : intset) (e : perr) (c' : ctx),
   1 <= epos e ->
   rp p c stk lrc pos = Ok (res, cp, Some e, c') ->
   parse_step inp rules rp rs (PRightTrim m p) c stk lrc pos =
-  Ok (res, cp, Some (mk_err (w_end (spec_run inp (epos e))) (ecause e)), c').
+  Ok (res, cp, Some (if is_wserr e then e else mk_err (w_end (spec_run inp (epos e))) (ecause e)), c').
 Proof. exact righttrim_table_err. Qed.
 Print Assumptions C10_righttrim_table_err.
 
@@ -162,9 +163,24 @@ Proof. exact lefttrim_word. Qed.
 Print Assumptions C10_lefttrim_word.
 
 (* 3. For EVERY list of tokens (each with no/any left mode and no/any right mode), every input and base offset >= 1:
-   parsley.Parse(Sentence(SeqOf(tokens))) is exactly [code_parse]: either the single tree SEQ[SEQ[token nodes]; EOF] with
-   every token node at the rune's own start, ending behind its right run, or the error (cause and position) of the first
-   token that cannot be accepted / of the missing end of input. *)
+   parsley.Parse(Sentence(SeqOf(tokens))) is exactly what the property says ([spec_parse]): either the single tree
+   SEQ[SEQ[token nodes]; EOF] with every token node at the rune's own start, ending behind its right run, or the error of the
+   first token that cannot be accepted — that mode's whitespace error at the start of the run / the first line break / the
+   end of the run, or "was expecting <rune>" — or of the missing end of input. *)
+Theorem C10_tokens_spec :
+  forall (inp : input) (rules : list pexpr) (ts : list tokspec) (fuel : nat),
+  1 <= i_offset inp -> (length ts + 8 <= fuel)%nat ->
+  exists c : ctx,
+    cerr c = None /\
+    parse_top inp rules fuel (sentence (toks_expr ts)) =
+    Ok match spec_parse inp ts with
+       | VTree ns e => TopNode [sentence_tree ns e] c
+       | VError e => TopErr e c
+       end.
+Proof. exact tokens_spec. Qed.
+Print Assumptions C10_tokens_spec.
+
+(* The same under its former name ([code_parse] = [spec_parse] since the K3 repair). *)
 Theorem C10_tokens_code :
   forall (inp : input) (rules : list pexpr) (ts : list tokspec) (fuel : nat),
   1 <= i_offset inp -> (length ts + 8 <= fuel)%nat ->
@@ -178,46 +194,19 @@ Theorem C10_tokens_code :
 Proof. exact tokens_code. Qed.
 Print Assumptions C10_tokens_code.
 
-(* The property as written ([spec_parse]).  FULL statement: the same for every token list — FALSE of the model and of the
-   real code (C10_tokens_spec_refuted, finding K3).  Proved part: token lists in which no token combines a right trim with
-   a left mode WsNone / WsSpaces. *)
-Theorem C10_tokens_spec_partial :
-  forall (inp : input) (rules : list pexpr) (ts : list tokspec) (fuel : nat),
-  1 <= i_offset inp -> (length ts + 8 <= fuel)%nat ->
-  Forall (fun t : tokspec => k3_shape t = false) ts ->
-  exists c : ctx,
-    cerr c = None /\
-    parse_top inp rules fuel (sentence (toks_expr ts)) =
-    Ok match spec_parse inp ts with
-       | VTree ns e => TopNode [sentence_tree ns e] c
-       | VError e => TopErr e c
-       end.
-Proof. exact tokens_spec. Qed.
-Print Assumptions C10_tokens_spec_partial.
-
-(* K3 witness: RightTrim(LeftTrim(Rune a, WsSpaces), WsSpacesNl) on " \n a" at base offset 1: the property puts "new line
-   is not allowed" at the line break (position 2), Parse reports it at position 4 (the end of the run). *)
-Theorem C10_tokens_spec_refuted :
-  exists (inp : input) (ts : list tokspec) (fuel : nat) (c : ctx),
-    1 <= i_offset inp /\ (length ts + 8 <= fuel)%nat /\
-    spec_parse inp ts = VError (mk_err 2 (CWs WsErrSpaces)) /\
-    parse_top inp [] fuel (sentence (toks_expr ts)) = Ok (TopErr (mk_err 4 (CWs WsErrSpaces)) c).
-Proof. exact tokens_spec_refuted. Qed.
-Print Assumptions C10_tokens_spec_refuted.
-
 (* 4. Transparency.  Two texts with the same (non-whitespace) runes and arbitrary whitespace strings in the gaps — g0 before
    the first rune, gs_i behind rune i — both accepted: the token lists are equal after erasing positions, every node
    starts at its own rune ([starts]), hence token i moves by exactly the whitespace inserted before it. *)
 Theorem C10_transparent :
-  forall (b : bool) (ts : list tokspec) (inp1 inp2 : input) (g01 : list N) (gs1 : list (list N)) (g02 : list N)
+  forall (ts : list tokspec) (inp1 inp2 : input) (g01 : list N) (gs1 : list (list N)) (g02 : list N)
          (gs2 : list (list N)) (ns1 : list node) (e1 : N) (ns2 : list node) (e2 : N),
   Forall (fun t : tokspec => ws4 (t_rune t) = false) ts ->
   length gs1 = length ts -> length gs2 = length ts ->
   all_ws g01 -> Forall all_ws gs1 -> all_ws g02 -> Forall all_ws gs2 ->
   i_data inp1 = g01 ++ lay (map t_rune ts) gs1 ->
   i_data inp2 = g02 ++ lay (map t_rune ts) gs2 ->
-  gen_tokens b inp1 ts (i_offset inp1) = SAccept ns1 e1 ->
-  gen_tokens b inp2 ts (i_offset inp2) = SAccept ns2 e2 ->
+  spec_tokens inp1 ts (i_offset inp1) = SAccept ns1 e1 ->
+  spec_tokens inp2 ts (i_offset inp2) = SAccept ns2 e2 ->
   map erase ns1 = map erase ns2 /\
   map node_pos ns1 = starts (i_offset inp1 + len_N g01) (map t_rune ts) gs1 /\
   map node_pos ns2 = starts (i_offset inp2 + len_N g02) (map t_rune ts) gs2 /\
